@@ -660,6 +660,101 @@ fn checks(log: &mut Log) {
   }
 }
 
+/// stepping must hand out the same attributes as constructing: for every value of each attributed cycle, read
+/// all attributes (so that whatever the value memoises is filled), step by every n in -(2 size + 10)..=(2 size + 10)
+/// and compare every attribute of the stepped value with those of a freshly constructed value of the target
+/// index (which `checks` compares with the rules); the source must answer the same after having been stepped from,
+/// and so must a clone
+fn stepped(log: &mut Log) {
+  use tyme4rs::tyme::Tyme;
+  macro_rules! cycle {
+    ($name:expr, $ty:ty, $size:expr, $attrs:expr) => {{
+      let attrs = $attrs;
+      let size: i64 = $size;
+      for i in 0..size {
+        let r = guard(|| {
+          let mut bad: Vec<(String, String, String)> = vec![];
+          let a = <$ty>::from_index(i as isize);
+          let before: String = attrs(&a);
+          for n in -(2 * size + 10)..=(2 * size + 10) {
+            let b = a.next(n as isize);
+            let fresh = <$ty>::from_index(((i + n).rem_euclid(size)) as isize);
+            let (got, want) = (attrs(&b), attrs(&fresh));
+            if got != want {
+              bad.push((format!("{}_{}_step_{:+}", $name, i, n), got, want));
+            }
+            // a second hop from the stepped (now warm) value
+            let c = b.next(-n as isize);
+            let got2: String = attrs(&c);
+            if got2 != before {
+              bad.push((format!("{}_{}_step_{:+}_and_back", $name, i, n), got2, before.clone()));
+            }
+          }
+          if attrs(&a) != before || attrs(&a.clone()) != before {
+            bad.push((format!("{}_{}_after_stepping", $name, i), attrs(&a), before.clone()));
+          }
+          bad
+        });
+        log.ev((4 * size + 21) as u64);
+        log.count("stepped.value_step_pairs", (4 * size + 21) as u64);
+        match r {
+          Ok(bad) => {
+            for (k, got, want) in bad {
+              log.violate(format!("C19/stepped-attributes/{}", k), "attributes of a stepped value vs a constructed one", k.clone(), got, want);
+            }
+          }
+          Err(msg) => log.violate(format!("C19/stepped-attributes/{}_{}", $name, i), "attributes of a stepped value vs a constructed one", format!("{} {}", $name, i), format!("panic: {}", msg), "no panic".into()),
+        }
+      }
+    }};
+  }
+  let names = |v: Vec<String>| v.join("|");
+  cycle!("stem", HeavenStem, 10, |x: &HeavenStem| names(vec![
+    x.get_name(),
+    x.get_element().get_name(),
+    yy(x.get_yin_yang()).to_string(),
+    x.get_direction().get_name(),
+    x.get_joy_direction().get_name(),
+    x.get_yang_direction().get_name(),
+    x.get_yin_direction().get_name(),
+    x.get_wealth_direction().get_name(),
+    x.get_mascot_direction().get_name(),
+    x.get_combine().get_name(),
+    (0..10).map(|o| x.get_ten_star(HeavenStem::from_index(o)).get_name()).collect::<Vec<_>>().join(","),
+    (0..12).map(|o| x.get_terrain(EarthBranch::from_index(o)).get_name()).collect::<Vec<_>>().join(","),
+  ]));
+  cycle!("branch", EarthBranch, 12, |x: &EarthBranch| names(vec![
+    x.get_name(),
+    x.get_element().get_name(),
+    yy(x.get_yin_yang()).to_string(),
+    x.get_zodiac().get_name(),
+    x.get_direction().get_name(),
+    x.get_opposite().get_name(),
+    x.get_combine().get_name(),
+    x.get_harm().get_name(),
+    x.get_ominous().get_name(),
+    x.get_hide_heaven_stem_main().get_name(),
+    x.get_hide_heaven_stem_middle().map(|h| h.get_name()).unwrap_or_default(),
+    x.get_hide_heaven_stem_residual().map(|h| h.get_name()).unwrap_or_default(),
+    x.get_hide_heaven_stems().iter().map(|h| h.get_name()).collect::<Vec<_>>().join(","),
+  ]));
+  cycle!("pillar", SixtyCycle, 60, |x: &SixtyCycle| names(vec![
+    x.get_name(),
+    x.get_heaven_stem().get_name(),
+    x.get_earth_branch().get_name(),
+    x.get_sound().get_name(),
+    x.get_ten().get_name(),
+    x.get_extra_earth_branches().iter().map(|b| b.get_name()).collect::<Vec<_>>().join(","),
+    format!("{}", PengZu::from_sixty_cycle(x.clone())),
+  ]));
+  cycle!("element", Element, 5, |x: &Element| names(vec![x.get_name(), x.get_reinforce().get_name(), x.get_restrain().get_name(), x.get_reinforced().get_name(), x.get_restrained().get_name(), x.get_direction().get_name()]));
+  cycle!("direction", Direction, 9, |x: &Direction| names(vec![x.get_name(), x.get_element().get_name()]));
+  cycle!("nine-star", NineStar, 9, |x: &NineStar| names(vec![x.get_name(), x.get_color(), x.get_element().get_name(), x.get_dipper().get_name(), x.get_direction().get_name()]));
+  cycle!("mansion", TwentyEightStar, 28, |x: &TwentyEightStar| names(vec![x.get_name(), x.get_seven_star().get_name(), x.get_land().get_name(), x.get_zone().get_name(), x.get_animal().get_name(), x.get_luck().get_name()]));
+  cycle!("twelve-star", TwelveStar, 12, |x: &TwelveStar| names(vec![x.get_name(), x.get_ecliptic().get_name(), x.get_ecliptic().get_luck().get_name()]));
+  cycle!("minor-ren", MinorRen, 6, |x: &MinorRen| names(vec![x.get_name(), x.get_luck().get_name(), x.get_element().get_name()]));
+}
+
 pub fn run(_cfg: &Cfg) -> (Log, Meta) {
   let mut log = Log::new();
   // the relational tables of the oracle are involutions by construction; check the oracle itself
@@ -681,10 +776,19 @@ pub fn run(_cfg: &Cfg) -> (Log, Meta) {
   }
   log.count("checks.rule_based_comparisons", log.evals);
   log.floor("checks.rule_based_comparisons", 4_000);
+  match guard(|| {
+    let mut inner = Log::new();
+    stepped(&mut inner);
+    inner
+  }) {
+    Ok(inner) => log.merge(inner),
+    Err(msg) => log.violate("C19/panic/stepped-attributes".into(), "stepped attribute getters", "exhaustive sweep".into(), format!("panic: {}", msg), "no panic".into()),
+  }
+  log.floor("stepped.value_step_pairs", 10_000);
   log.sample(|| "HeavenStem 甲: element 木, Yang, direction 东, joy 艮=东北, Yang noble 坤=西南, Yin noble 牛=丑=东北, wealth 东北, fortune 东南, combines with 己 into 土".into());
   log.sample(|| "own sign for year stem 甲, month 丑, hour 寅: 12 + 1 = 13 -> 14 - 13 = 1 -> 寅 month of a 甲 year = 丙寅".into());
   let meta = Meta {
-    rule: "finite domain enumerated completely: 10 stems (element, polarity, direction, joy / Yang-noble / Yin-noble / wealth / fortune direction rhymes, five combinations + involution), 10 x 10 stem pairs (ten stars by generating/overcoming relation and polarity; combination element), 10 x 12 growth stages from the birth branches, 12 branches (element, polarity, direction, zodiac, hidden stems, clash / six combination / harm + involutions, ominous direction, combination elements over 12 x 12), 5 elements and 9 directions (cycles, inverse pairs), 9 stars, 60 pillars (Nayin name and element by the value rule, Xun head, void branches, foetus spirit parts and place by run-lengths), 12 + 1 foetus months, 28 mansions (order, luminary, animal, zone, beast, land, land direction, luck), minor Ren and twelve-spirit attributes, 366 month-days of zodiac signs, 1,440 (year stem, month branch, hour branch) own/body signs and foetal origin, 60 foetal breaths; every comparison is by name against an encoding written from the rules. Non-trivial = every comparison.".into(),
+    rule: "finite domain enumerated completely: 10 stems (element, polarity, direction, joy / Yang-noble / Yin-noble / wealth / fortune direction rhymes, five combinations + involution), 10 x 10 stem pairs (ten stars by generating/overcoming relation and polarity; combination element), 10 x 12 growth stages from the birth branches, 12 branches (element, polarity, direction, zodiac, hidden stems, clash / six combination / harm + involutions, ominous direction, combination elements over 12 x 12), 5 elements and 9 directions (cycles, inverse pairs), 9 stars, 60 pillars (Nayin name and element by the value rule, Xun head, void branches, foetus spirit parts and place by run-lengths), 12 + 1 foetus months, 28 mansions (order, luminary, animal, zone, beast, land, land direction, luck), minor Ren and twelve-spirit attributes, 366 month-days of zodiac signs, 1,440 (year stem, month branch, hour branch) own/body signs and foetal origin, 60 foetal breaths; every comparison is by name against an encoding written from the rules; then, for every value of the nine attributed cycles (stems, branches, pillars, elements, directions, nine stars, mansions, twelve spirits, minor Ren), all attributes are read, the value is stepped by every n in -(2 size + 10)..(2 size + 10) and back, and all attributes of the stepped values are compared with those of freshly constructed values. Non-trivial = every comparison.".into(),
     assumptions: vec!["the oracle is the harness' own transcription of the classical rules (DESIGN section 9); its relational tables and a few spot values are self-tested".into()],
     exhaustive: true,
   };
